@@ -5,6 +5,34 @@ ROOT = os.path.dirname(os.path.dirname(os.path.abspath(__file__)))
 ALL = ["C%02d" % i for i in range(1, 21)]
 # id -> (level category, level text, level note, technique, design ref)
 CLAIMED = {
+ "C01": ("exploration",
+         "Differential re-parse under hostile values: every template of the grid (10 escaped sinks x 16 enclosing constructs x 4 static neighbourhoods) is rendered by the real engine with a harmless word and with each hostile value; an HTML5 parser must find the same elements and attribute names, every non-sink text run/attribute must be unchanged, the sink must hold the value literally, and a canary variable / registered function must never show up. All strings up to length 3 (quick) / 4 (thorough) over a 14-symbol hostile alphabet are enumerated on the base grid, a 150-token dictionary on the full grid, random concatenations beyond. Held means: on the executions listed in the evidence.",
+         "golang.org/x/net/html is the trusted observer; values with CR/NUL not generated; a defect present for every value incl. the harmless word is C02's; longer strings are sampled, not enumerated.",
+         "runtime differential monitor (harmless vs hostile render, HTML5 re-parse, canary) over enumerated + seeded inputs", "4/C01"),
+ "C02": ("exploration",
+         "The real engine renders generated parser-stable fragments and full documents (and every directive-free file of the repository) through all seven render entry points; the parse of the bytes is compared node by node with the parse of the source (elements, attribute names and values, text, doctype). Typed values are interpolated and the parsed sink compared with neighbours + fmt.Sprint(value); v-html values must appear verbatim in the bytes.",
+         "x/net/html trusted on both sides with the engine's own document/fragment rule; generator keeps only parser-stable sources; full documents judged through file entry points only; whitespace normalised per text node.",
+         "runtime round-trip monitor (HTML5 re-parse of output vs source) over seeded generated documents", "4/C02"),
+ "C03": ("exploration",
+         "Every chain shape v-if + k x v-else-if (k<=2 quick, <=3 thorough) +/- v-else x every truth assignment x 9 placements x bare/negated conditions is rendered by the real engine with values rotating through every Go value kind; the markers found among the parent's children must be exactly those a 20-line reference predicts. Every value of the kind catalogue is read in v-if, v-else-if, v-show, :attr and :class object (and negated) and must agree with the stated truthiness table. Exhaustive inside the stated bounds.",
+         "x/net/html re-parse trusted; typed nil pointers/slices/maps reported but not judged; orphan v-else and non-whitespace text between members are outside the statement.",
+         "reference-model monitor over an exhaustively enumerated bounded program space (marker oracle on re-parsed output)", "4/C03"),
+ "C09": ("exploration",
+         "The real engine, built with the Go race detector, serves short runs of 2-16 goroutines released by a barrier onto one shared Vue or base Template (cold and warm caches, private and shared read-only data, all catalogue features, previously unseen expressions/paths) while failpoints at the engine's hook points inject seeded yields, sleeps and rendezvous so that two goroutines sit in the same cache window together. Three monitors decide: race-detector reports collected per worker, each call's bytes+error vs the same call alone on a fresh engine, and porcupine linearizability of recorded edit/render histories (files rewritten underneath) against a register-per-file model. Evidence lists hook hits, rendezvous met per window, histories and operations checked.",
+         "happens-before analysis only covers executed access pairs; schedules are perturbed, not enumerated; the linearizable in-memory FS, porcupine v1.3.0 and the race runtime are trusted; callers use the API as docs/concurrency.md prescribes.",
+         "Go race detector + solo-reference differential + porcupine linearizability check over failpoint-perturbed stress runs", "4/C09"),
+ "C10": ("exploration",
+         "A catalogue of 42 template programs (every directive, includes, slots, layouts, filters, failing templates) lives in one filesystem; all ordered pairs, 20-fold repetitions and seeded sequences are rendered on one long-lived engine through four entry points and every step's bytes and error are compared with the same program on a fresh engine; caller data is deep-compared before/after; every program prints the inner-scope variable names of all programs (leak probes); hooks assert that pooled scope maps and builders are handed out empty. Thorough tier repeats under -race.",
+         "reference = fresh-engine render; catalogue coverage, not all templates; error text compared literally.",
+         "history monitor: byte-equality against a fresh-engine reference + invariant hooks on pooled state", "4/C10"),
+ "C11": ("exploration",
+         "Isolated worker processes (ulimit, watchdog, begin/end marker per case) feed the real engine random bytes, token soup and mutated corpus files as templates and front-matter, every typed value of a 45-value catalogue in every directive position (exhaustive), every include graph over 3 files x 4 include forms (exhaustive) and layout cycles/chains. A recovered panic, a process-fatal error attributed by the marker, or a logical bound exceeded at the engine's hooks (include chain, evaluate depth/steps, serialiser steps, layout iterations) is a violation; a watchdog firing alone is inconclusive.",
+         "harness functions are total; self-referential maps not generated; bounded progress is decided on logical counters, not wall-clock.",
+         "crash/panic monitor over isolated worker processes + logical step bounds at hook points", "4/C11"),
+ "C15": ("exploration",
+         "Edit/render histories over a 20-symbol alphabet (edit page/component/layout x mtime advance/equal/backwards/zero, delete/recreate, make invalid, render through three entry points) are executed against one long-lived engine over a mutable in-memory filesystem; after every render the (bytes, error-ness) is compared with a newly created engine over the current files. Exhaustive for length <=3 (quick) / <=4 (thorough) plus seeded histories of length 6-20; cache hit/miss hooks prove which answers came from the cache.",
+         "versions whose mtime is indistinguishable from the current one (equal or zero) are exempt as the cache documents; single goroutine; MapFS trusted.",
+         "differential history monitor (long-lived vs fresh engine) with cache hit/miss hooks", "4/C15"),
  "C18": ("exploration",
          "The real OverlayFS is run against every stack of up to 3 layers (nil or one of 48 MapFS states over a 6-path universe) and every ReadFile/Stat/ReadDir/Glob query over that universe; each answer is compared online with a 40-line reference union model. Exhaustive inside that bound, nothing beyond it.",
          "testing/fstest.MapFS and io/fs helpers are trusted; paths deeper than two components, symlinks and layers that fail with errors other than not-exist are not explored.",
